@@ -56,6 +56,12 @@ def run(ck: vlib.Check):
             jobs.append({"kind": "save", "base": b, "edit": "bigger", "seed": s})
         for files in (["wav"], ["ogg"], ["wav", "ogg"], ["ogg", "wav"]):
             jobs.append({"kind": "audio", "base": b, "files": files})
+    # sounds with one file name in different archive directories (and different lengths), in both listing orders
+    for b in ("scx1", "scm0"):
+        jobs.append({"kind": "same-basename", "base": b,
+                     "members": [["music\\theme.wav", 2500], ["staredit\\wav\\theme.wav", 1000]]})
+        jobs.append({"kind": "same-basename", "base": b,
+                     "members": [["staredit\\wav\\theme.wav", 700], ["a\\theme.wav", 1300], ["z\\theme.wav", 300]]})
     results = run_jobs(jobs)
     for j, r in zip(jobs, results):
         ck.evaluations += 1
